@@ -147,6 +147,14 @@ Theorem C08_hover_account_and_date_ranges : forall text j errs pl pc k r, parse 
 Proof. exact hover_account_and_date_ranges. Qed.
 Print Assumptions C08_hover_account_and_date_ranges.
 
+(* every occurrence that references / rename report for an account or a commodity of the document
+   (declarations included when asked) is a pair of LSP positions of places of the text *)
+Theorem C08_reference_ranges_are_places : forall text j errs, parse text = Some (j, errs) ->
+  (forall name incl r, In r (account_hits name incl j) -> prange_places text r) /\
+  (forall sym incl r, sym <> [] -> In r (commodity_hits sym incl j) -> prange_places text r).
+Proof. exact account_and_commodity_hits_are_places. Qed.
+Print Assumptions C08_reference_ranges_are_places.
+
 (* every syntax-error diagnostic is reported at a place of the text *)
 Theorem C08_syntax_errors_in_text : forall text j errs, parse text = Some (j, errs) ->
   forall l c, In (l, c) errs ->
